@@ -14,8 +14,8 @@ META = {
             '(pom) generatePropertyPatches never slices out of range for any two strings, and every returned patch map interpolates the old '
             'requirement to exactly the new one and gives no name two values (full strength after fix d4dd80ce). '
             'The abstract pom writer is the identity on no updates. The pom.xml writer as a whole is covered by correspondence plus the '
-            'requirement-level oracle (re-read = substitute), not by a general theorem; three classes where the unchanged writer leaves the '
-            'property are recorded as known findings with witnesses (comment inside <version>, dependencies-vs-dependencyManagement addressing, shared property); three '
+            'requirement-level oracle (re-read = substitute), not by a general theorem; four classes where the unchanged writer leaves the '
+            'property are recorded as known findings with witnesses (comment inside <version>, dependencies-vs-dependencyManagement addressing, shared property, a property defined only in another profile); three '
             'former ones (white space in key elements, undefined property, repeated placeholder) were repaired and their witnesses are regression cases. Token level: writeString (the rewrite applied to every dependency / parent / properties element) is modelled on token '
             'lists and is the identity whenever each addressed child holds exactly its value (comment-in-<version> counterexample proved); the element dispatch above it '
             '(write / writeProject / writeDependency) and the XML tokenizer/encoder (forkedxml) are not modelled.',
@@ -29,7 +29,7 @@ THEOREMS = [NPM + 'C13_npm_escape', NPM + 'C13_npm_roundtrip', NPM + 'C13_npm_id
             NPM + 'C13_npm_present_applied', NPM + 'C13_npm_alias_at_witness',
             POM + 'C13_pom_props_total', POM + 'C13_pom_props_sound', POM + 'C13_pom_props_repeated_name_fixed',
             POM + 'C13_pom_props_fixed_witnesses', POM + 'C13_pom_identity',
-            POM + 'C13_pom_literal_roundtrip', POM + 'C13_pom_class_witnesses', POM + 'C13_pom_fixed_witnesses',
+            POM + 'C13_pom_literal_roundtrip', POM + 'C13_pom_class_witnesses', POM + 'C13_pom_other_profile_witness', POM + 'C13_pom_fixed_witnesses',
             'Scalibr.PomTok.C13_pom_tokens_identity_partial', 'Scalibr.PomTok.C13_pom_tokens_comment_witness']
 
 
@@ -59,8 +59,7 @@ def run(ctx):
                    'harness/cmd/c13gen + lean/Drivers/C13.lean line protocol', 'Lean compiler for the driver executable']
     ctx.assumptions = ['package.json sections have unique keys and, per section, distinct real package names (Go map order would otherwise decide)',
                        'updates carry plain version strings (no ":", "/", "@"); an aliased update names its package and a non-empty old version',
-                       'pom model: no local parents, plugins, imports, active profiles; property values are literals; one update per dependency key',
-                       'a property used in a dependency version is defined in the project or in that dependency\'s own profile (or nowhere); a property defined only in ANOTHER profile still passes fix f5d17448\'s by-name test and is patched into a <properties> element that does not hold it (reported, not generated)']
+                       'pom model: no local parents, plugins, imports, active profiles; property values are literals; one update per dependency key']
     ctx.rule = ('npm case = three sections (0-4 entries, 26 names incl. dotted/scoped/wildcard/escaped/non-ASCII, plain/alias/non-registry values, repeated keys across sections) in a '
                 'random layout (indent, key order, noise sections) x a subset of the requirements Read reports as updates (some with a wrong old version or an ill-formed new one); '
                 'thorough adds every section combination x equal/different versions x 8 names, plain and aliased. '
